@@ -39,6 +39,10 @@ pub struct Work {
     /// (type, id) loaded before the directories are listed
     pub preload: Vec<(DT, String)>,
     pub queries: Vec<Query>,
+    /// real-source variant: the tree is written to a scratch directory, archived and embedded, and the queries run on a
+    /// cache over each of FileSystem, Tar, Zip and Embedded (no unreadable directories in this variant)
+    #[serde(default)]
+    pub real: Option<super::c04::ArcOpts>,
 }
 
 pub fn gen_names(g: &mut SplitMix) -> Vec<String> {
@@ -123,15 +127,27 @@ impl Property for C11 {
         PropInfo {
             level: "exploration",
             rule: "a run is non-trivial when at least one listed directory contained a stem with >= 2 matching extensions, or a recursive listing crossed >= 2 levels, or skipped an unreadable sub-directory that had readable siblings",
-            real: &["src/dirs.rs (select_ids, Directory, RecursiveDirectory, iter, iter_cached)", "src/anycache.rs (raw_source, nested loads)"],
+            real: &["src/dirs.rs (select_ids, Directory, RecursiveDirectory, iter, iter_cached)", "src/anycache.rs (raw_source, nested loads)", "in the real-source variant: src/source/{filesystem,tar,zip,embedded}.rs, crates tar and zip, macros/src/embedded.rs, a scratch directory"],
             stub: &["Source: in-memory generated tree; read_dir returns entries in an arbitrary fixed order; chosen sub-directories fail to list (fault set)"],
-            assumptions: &["single simulated thread: the simulated part is the faultable read_dir seam, the rest is generated input (stated in DESIGN §7 C11)", "archive-backed directories are exercised by C04's sources"],
+            assumptions: &["single simulated thread: the simulated part is the faultable read_dir seam, the rest is generated input (stated in DESIGN §7 C11)", "one run in eight lists the same generated tree through caches over the four real sources (FileSystem, Tar, Zip, Embedded built as in C04)"],
             runs: (200_000, 6_000_000),
         }
     }
     fn generate(&self, g: &mut SplitMix, k: &mut SplitMix, _tier: Tier) -> (Knobs, Value) {
         let knobs = Knobs::draw(k);
-        let tree = gen_dir_tree(g);
+        let mut tree = gen_dir_tree(g);
+        let real = if g.chance(1, 8) {
+            // what a file system can hold: nothing unreadable by construction, and no file without extension that shares
+            // its path with a directory
+            tree.bad_dirs.clear();
+            let clash: Vec<String> = tree.files.keys().filter(|k| unfkey(k).1.is_empty() && tree.dirs.contains(unfkey(k).0)).cloned().collect();
+            for k in clash {
+                tree.files.remove(&k);
+            }
+            Some(super::c04::ArcOpts { order: if g.chance(1, 3) { 0 } else { g.next() | 1 }, dir_members: g.chance(2, 3), dot_prefix: g.chance(1, 4), gnu: g.chance(2, 3), deflate: g.chance(1, 2) })
+        } else {
+            None
+        };
         let tys = [DT::LA, DT::LAB, DT::LBC, DT::LE, DT::ArcLA];
         let mut dirs: Vec<String> = tree.dirs.iter().cloned().collect();
         dirs.push(String::new());
@@ -139,7 +155,7 @@ impl Property for C11 {
         let file_ids: Vec<String> = tree.files.keys().map(|k| unfkey(k).0.to_string()).collect();
         let preload = (0..g.below(5)).filter_map(|_| if file_ids.is_empty() { None } else { Some((*g.pick(&tys), g.pick(&file_ids).clone())) }).collect();
         let queries = (0..1 + g.below(5)).map(|_| Query { ty: *g.pick(&tys), dir: g.pick(&dirs).clone(), recursive: g.chance(1, 2) }).collect();
-        (knobs, serde_json::to_value(Work { tree, hot: g.chance(1, 2), preload, queries }).unwrap())
+        (knobs, serde_json::to_value(Work { tree, hot: g.chance(1, 2), preload, queries, real }).unwrap())
     }
     fn execute(&self, case: &Case) -> Outcome {
         let w: Work = serde_json::from_value(case.work.clone()).unwrap();
@@ -166,6 +182,12 @@ impl Property for C11 {
             x.preload.clear();
             out.push(x);
         }
+        if w.real.is_some() && w.tree.bad_dirs.is_empty() {
+            // the same tree on the in-memory source (only when that keeps the violation)
+            let mut x = w.clone();
+            x.real = None;
+            out.push(x);
+        }
         for k in w.tree.files.keys() {
             let mut x = w.clone();
             x.tree.files.remove(k);
@@ -180,7 +202,74 @@ impl Property for C11 {
     }
 }
 
+/// The same queries on caches over the four real sources built from one directory.
+fn real_sources(w: &Work, opts: &super::c04::ArcOpts) {
+    use super::c04::{build_embedded, build_tar, build_zip, scratch, write_dir, FsTree, RmOnDrop};
+    use assets_manager::source::{FileSystem, Tar, Zip};
+    let to_fs = |t: &Tree| {
+        let mut x = FsTree::default();
+        for (k, v) in &t.files {
+            if let FileSt::Data(d) = v {
+                let (id, ext) = unfkey(k);
+                x.add_file(id, ext, materialize(d));
+            }
+        }
+        x.dirs.extend(t.dirs.iter().cloned());
+        x
+    };
+    let full = to_fs(&w.tree);
+    // archives without directory members know only the directories that hold something
+    let mut t_arch = w.tree.clone();
+    if !opts.dir_members {
+        t_arch.dirs.clear();
+        let keys: Vec<String> = t_arch.files.keys().cloned().collect();
+        for k in keys {
+            let mut p = parent_id(unfkey(&k).0);
+            while let Some(d) = p {
+                if !d.is_empty() {
+                    t_arch.dirs.insert(d.to_string());
+                }
+                p = parent_id(d);
+            }
+        }
+    }
+    let arch = to_fs(&t_arch);
+    let dir = scratch();
+    let _rm = RmOnDrop(dir.clone());
+    let root = dir.join("root");
+    write_dir(&full, &root);
+    std::fs::write(dir.join("t.tar"), build_tar(&arch, opts)).unwrap();
+    std::fs::write(dir.join("t.zip"), build_zip(&arch, opts)).unwrap();
+    fn run_on<S: assets_manager::source::Source + Send + Sync + 'static>(name: &'static str, src: S, t: &Tree, w: &Work) {
+        let cache = AssetCache::without_hot_reloading(src);
+        let any = cache.as_any_cache();
+        SRC_NAME.with(|n| n.set(name));
+        let mut cached: BTreeSet<(String, String)> = BTreeSet::new();
+        for (dt, id) in &w.preload {
+            if with_dt!(*dt, T, any.load::<T>(id).is_ok()) {
+                cached.insert((format!("{dt:?}"), id.clone()));
+            }
+        }
+        for q in &w.queries {
+            check_query(any, t, q, &mut cached);
+        }
+        detsim::count("reach.real_source_cache");
+        SRC_NAME.with(|n| n.set("sim"));
+    }
+    run_on("filesystem", FileSystem::new(&root).expect("FileSystem::new"), &w.tree, w);
+    run_on("embedded", build_embedded(&root), &w.tree, w);
+    run_on("tar", Tar::open(dir.join("t.tar")).expect("Tar::open"), &t_arch, w);
+    run_on("zip", Zip::open(dir.join("t.zip")).expect("Zip::open"), &t_arch, w);
+}
+thread_local! {
+    static SRC_NAME: std::cell::Cell<&'static str> = const { std::cell::Cell::new("sim") };
+}
+
 fn scenario(w: Work) {
+    if let Some(opts) = w.real.clone() {
+        real_sources(&w, &opts);
+        return;
+    }
     let src = SimSource::new(w.tree.clone(), HotMode::Custom, 3);
     let cache = if w.hot { AssetCache::with_source(src.clone()) } else { AssetCache::without_hot_reloading(src.clone()) };
     let any = cache.as_any_cache();
@@ -203,7 +292,7 @@ fn check_query(any: AnyCache, t: &Tree, q: &Query, cached: &mut BTreeSet<(String
     if !q.recursive {
         let exp = expect_dir(t, exts, d);
         let got: Option<Vec<String>> = with_dt!(q.ty, T, any.load_dir::<T>(d).ok().map(|h| h.read().ids().map(|s| s.to_string()).collect()));
-        detsim::check(got == exp, "C11/directory-ids", || format!("load_dir::<{tyname}>({d:?}) = {got:?}, the tree says {exp:?} (sorted, no duplicates; None = error)"));
+        detsim::check(got == exp, "C11/directory-ids", || format!("[{}] load_dir::<{tyname}>({d:?}) = {got:?}, the tree says {exp:?} (sorted, no duplicates; None = error)", SRC_NAME.with(|n| n.get())));
         if let Some(ids) = &exp {
             let stems_multi = t.files.keys().map(|k| unfkey(k)).filter(|(id, e)| parent_id(id) == Some(d.as_str()) && exts.contains(e)).count() > ids.len();
             if stems_multi {
@@ -229,7 +318,7 @@ fn check_query(any: AnyCache, t: &Tree, q: &Query, cached: &mut BTreeSet<(String
         let exp = expect_rec(t, exts, d);
         let got: Option<Vec<String>> = with_dt!(q.ty, T, any.load_rec_dir::<T>(d).ok().map(|h| h.read().ids().map(|s| s.to_string()).collect()));
         let got_set: Option<BTreeSet<String>> = got.as_ref().map(|v| v.iter().cloned().collect());
-        detsim::check(got_set == exp, "C11/recursive-directory-ids", || format!("load_rec_dir::<{tyname}>({d:?}) = {got:?}, the tree says {exp:?} (as a set; None = error)"));
+        detsim::check(got_set == exp, "C11/recursive-directory-ids", || format!("[{}] load_rec_dir::<{tyname}>({d:?}) = {got:?}, the tree says {exp:?} (as a set; None = error)", SRC_NAME.with(|n| n.get())));
         if let (Some(v), Some(s)) = (&got, &got_set) {
             detsim::check(v.len() == s.len(), "C11/recursive-directory-duplicates", || format!("load_rec_dir::<{tyname}>({d:?}) lists an id twice: {v:?}"));
             let depth = |id: &str| id.matches('.').count();
